@@ -241,7 +241,7 @@ impl Property for C02 {
         let cfg = PartCfg {
             name: "twin",
             rule: "the same generated history is fed to two instances; every response and, every 6 ops and at the end, the full observation must be identical (arrays in identical order). Non-trivial = the history has a block with >= 3 transactions and >= 2 logs; distinct by serialised case",
-            cases: ctx.tier.pick(320, 6000),
+            cases: ctx.tier.pick(700, 10_000),
             max_shrink_iters: ctx.tier.pick(250, 1000),
         };
         let mut found = explore(ctx, ev, &cfg, strategy, check);
